@@ -222,6 +222,43 @@ fn register_stress(bad: &std::sync::Mutex<Vec<String>>, rounds: usize) {
             }
         }
     }
+    // pair races: two threads write one value each at the same moment; afterwards the register
+    // holds one of them (the winner) and writing the *other* one must take effect - an
+    // implementation that elides "redundant" stores by comparing with a separate last-request
+    // record loses exactly that write when the two writers' steps nest
+    for round in 0..rounds.min(10) {
+        let barrier = std::sync::Arc::new(std::sync::Barrier::new(2));
+        let hs: Vec<_> = [1u8, 2u8]
+            .into_iter()
+            .map(|v| {
+                let b = barrier.clone();
+                std::thread::spawn(move || {
+                    b.wait();
+                    choice_of(v).write_global();
+                })
+            })
+            .collect();
+        for h in hs {
+            h.join().unwrap();
+        }
+        let winner = code_of(ColorChoice::global());
+        if winner != 1 && winner != 2 {
+            bad.lock().unwrap().push(format!("pair race {round}: the register holds {:?}, neither writer's value", choice_of(winner)));
+            break;
+        }
+        let loser = 3 - winner;
+        choice_of(loser).write_global();
+        let got = code_of(ColorChoice::global());
+        if got != loser {
+            bad.lock().unwrap().push(format!(
+                "pair race {round}: after both writers finished the register held {:?}; write_global({:?}) was then followed by global() = {:?}",
+                choice_of(winner),
+                choice_of(loser),
+                choice_of(got)
+            ));
+            break;
+        }
+    }
     // writers have finished: every further write must be readable at once (a store elided
     // because it "equals the last request" shows here)
     let fin0 = code_of(ColorChoice::global());
